@@ -268,6 +268,38 @@ def backward_jump(ctx, shard):
     ctx.evaluations += max(3 * n - 1, 0)
 
 
+def rec_abort_cases():
+    """locks whose function calls itself under a TRY, driven by witness items: an inner activation that fails must not
+    disturb the outer one (every witness of <= 5 items over {00, 01})"""
+    b2 = lambda c: len(c).to_bytes(2, 'big') + c
+    IF_, TRY_, DEF0, CALL0, VERIFY, T_ = b'\x2b', b'\x3d', b'\x29\x00', b'\x2a\x00', b'\x20', b'\x01'
+    bodies = [
+        TRY_ + b2(IF_ + b2(CALL0)) + b2(b'') + VERIFY + VERIFY + T_,
+        TRY_ + b2(IF_ + b2(CALL0)) + b2(b'') + VERIFY + T_,
+        TRY_ + b2(IF_ + b2(CALL0) + VERIFY) + b2(b'') + VERIFY + T_,
+        IF_ + b2(TRY_ + b2(CALL0) + b2(b'')) + VERIFY + T_,
+        TRY_ + b2(IF_ + b2(CALL0)) + b2(VERIFY) + VERIFY + T_,
+    ]
+    locks = [DEF0 + b2(body) + CALL0 for body in bodies]
+    wits = [b'']
+    for n in range(1, 6):
+        for bits in itertools.product((b'\x00', b'\x01'), repeat=n):
+            wits.append(b''.join(bits))
+    return [(w, l) for l in locks for w in wits]
+
+
+def rec_abort(ctx, shard):
+    cases = rec_abort_cases()
+    n = 0
+    for w, l in cases[shard::16]:
+        n += 1
+        ctx.state(('rec-abort', w, l))
+        sig = {'family': 'recursive lock with TRY, witness-driven'}
+        judge(ctx, [w, l] if w else [l], {}, DEFAULT_LIMITS, sig)
+        judge(ctx, [w + l], {}, DEFAULT_LIMITS, sig)
+    ctx.evaluations += max(2 * n - 1, 0)
+
+
 def wit_lock_cfg(ctx, w):
     """small witnesses x locks x every initial cache x every limit triple"""
     wb = spaces.render(w)
@@ -353,6 +385,9 @@ def blocks(tier, seed):
         Block('host_stack_exhaustion', host_stack_cases(), host_stack,
               'static IF nesting 50..3000 deep and CALL / self-EVAL recursion through 1..6 nested IF bodies, default and raised '
               'call-stack limit, alone / as lock / as witness', nshards=16),
+        Block('recursion_abort_locks', list(range(16)), rec_abort,
+              '5 self-calling locks with TRY x every witness of <= 5 items over {00, 01} (%d pairs), as two scripts and concatenated'
+              % len(rec_abort_cases()), nshards=16),
         Block('backward_jumps', list(range(64)), backward_jump,
               '%d scripts: DEPTH IF { POP0^j RETURN } TRUE^a cond, then IF / IF_ELSE / TRY / LOOP / DEF / PUSH2 with length 0x10000 - k for '
               'every k up to the offset of the operand; alone / as lock / as witness' % len(backward_jump_cases()), nshards=64, backstop=60),
